@@ -129,8 +129,8 @@ Print Assumptions C02_full_build_refines_new_table.
 
 (* REFUTED as stated: kernel-checked texts on which the faithful model - and the real code, see
    known_findings/C02.json - crashes while the table is built (Inf, 5e-324), or builds a table
-   on which every lookup of the route crashes (1e308 twice), or every glob-enabled lookup
-   crashes (host pattern '['); and the update loop dies with it. *)
+   on which every lookup of the route crashes (1e308 twice), and the update loop dies with it.
+   (The fourth witness, a host pattern '[', was repaired by c9fb527: see the _unrepaired theorems.) *)
 Theorem C02_new_table_total_refuted : exists text, fb_wit text = Panic.
 Proof. exact (ex_intro (fun text => fb_wit text = Panic) _ weight_inf_crashes_build). Qed.
 Print Assumptions C02_new_table_total_refuted.
@@ -154,15 +154,41 @@ Theorem C02_weight_sum_overflow_crashes_lookup :
 Proof. exact weight_sum_overflow_crashes_lookup. Qed.
 Print Assumptions C02_weight_sum_overflow_crashes_lookup.
 
-Theorem C02_bad_host_glob_crashes_lookup :
-  match fb_wit (bs "route add s [/ http://h/" ++ nl ++ bs "route add t x.com/ http://x/") with
+(* F-C02-4 (fixed by /repo c9fb527): with the builder that compiled only the path of a new route,
+   an invalid host glob was installed and crashed every glob-enabled lookup *)
+Theorem C02_bad_host_glob_crashes_lookup_unrepaired :
+  match fb_wit_unrepaired bad_host_text with
   | Ok bt => lookup_full hostglob_wit bt (bs "x.com") false (bs "/") Lookup.MPrefix false 0%N = Panic
              /\ lookup_full hostglob_wit bt (bs "x.com") false (bs "/") Lookup.MPrefix true 0%N
                 = Ok (Some (bs "x.com", bs "/", 0))
   | _ => False
   end.
-Proof. exact bad_host_glob_crashes_lookup. Qed.
-Print Assumptions C02_bad_host_glob_crashes_lookup.
+Proof. exact bad_host_glob_crashes_lookup_unrepaired. Qed.
+Print Assumptions C02_bad_host_glob_crashes_lookup_unrepaired.
+
+(* the code as it is: the command is rejected (route: invalid host), the whole text with it, and the
+   update loop keeps the last good table and applies the next valid text *)
+Theorem C02_bad_host_glob_rejected : fb_wit bad_host_text = Err e_invalid_host.
+Proof. exact bad_host_glob_rejected. Qed.
+Print Assumptions C02_bad_host_glob_rejected.
+
+Theorem C02_bad_host_glob_keeps_last_good :
+  map (fun p => match p with
+                | Running w => Some (map fst (Watch.w_active w))
+                | Crashed => None end)
+      (wtrace fb_wit (Running (Watch.w_init btable []))
+         [Watch.Svc (bs "route add s h.com/ http://h/"); Watch.Man bad_host_text; Watch.Man (bs "route add t x.com/ http://x/")])
+  = [Some [bs "h.com"]; Some [bs "h.com"]; Some [bs "h.com"; bs "x.com"]].
+Proof. exact bad_host_glob_keeps_last_good. Qed.
+Print Assumptions C02_bad_host_glob_keeps_last_good.
+
+(* every host key of a table the composed NewTable returns compiles as a glob: for every text,
+   whatever the libraries answer (reachability invariant over C05's add / del / weight) *)
+Theorem C02_built_host_keys_compile : forall pweight canon glob_ok order text bt,
+  full_build pweight canon glob_ok (ring_faithful order) text = Ok bt ->
+  Forall (fun k => glob_ok k = true) (map fst bt).
+Proof. exact full_build_keys_ok. Qed.
+Print Assumptions C02_built_host_keys_compile.
 
 Theorem C02_watch_crash_refuted :
   map (fun p => match p with
@@ -182,8 +208,12 @@ Print Assumptions C02_watch_crash_refuted.
    If every route state the text's commands go through ([reached], defined on C05's command layer
    alone) is outside the regions, then - for every text, and whatever ParseFloat, url.Parse,
    glob.Compile and the unstable sort answer - the build returns a table or an error, and on the
-   table every lookup returns unless a host key is no valid glob and glob matching is on.
-   Composition of C05 parse_lines_np / apply_def_np, C04 ring_of_counts_spec / rr_pick_ok.
+   table EVERY lookup returns, glob matching on or off (since c9fb527 every host key of a built
+   table compiles; [Hstrip] is the one fact about the glob library that is assumed: a pattern that
+   compiles still compiles without its literal ":80" / ":443" suffix - the harness checks it on
+   every host key it generates).
+   Composition of C05 parse_lines_np / apply_def_np / add_route's host check, C04
+   ring_of_counts_spec / rr_pick_ok.
    What is NOT proved (hence the correspondence run's tripwire): a characterisation of the regions
    by the input weights on binary64 (e.g. "all weights finite, their float sum finite and either 0
    or >= 2^-1022"); the regions are decided per case by evaluating the binary64 model. *)
@@ -193,29 +223,25 @@ Theorem C02_new_table_total_on_domain :
   full_build pweight canon glob_ok (ring_faithful order) text <> Panic
   /\ forall bt, full_build pweight canon glob_ok (ring_faithful order) text = Ok bt ->
      forall hostglob_ok host tls uri m globoff total,
-       (globoff = true \/ F_C02_bad_host_glob hostglob_ok bt tls = false) ->
+       (forall k tl, glob_ok k = true -> hostglob_ok (Lookup.normalize_host k tl) = true) ->
        lookup_full hostglob_ok bt host tls uri m globoff total <> Panic.
-Proof.
-  intros pweight canon glob_ok order text Hord H.
-  destruct (full_build_total pweight canon glob_ok order Hord text H) as [Hnp Hg].
-  split; [exact Hnp|]. intros bt Hbt hostglob_ok host tls uri m globoff total Hd.
-  exact (lookup_full_total hostglob_ok bt host tls uri m globoff total (Hg bt Hbt) Hd).
-Qed.
+Proof. exact new_table_total_on_domain. Qed.
 Print Assumptions C02_new_table_total_on_domain.
 
 (* the same for the custom backend's builder (no text, no parser) *)
 Theorem C02_custom_build_total_on_domain : forall canon glob_ok order ds t, perm_order order ->
   Forall route_ok (reached canon glob_ok t (known_defs ds)) ->
   custom_from canon glob_ok (ring_faithful order) t ds <> Panic.
-Proof. intros canon glob_ok order ds t Hord. exact (custom_from_np canon glob_ok order Hord ds t). Qed.
+Proof. exact custom_build_total_on_domain. Qed.
 Print Assumptions C02_custom_build_total_on_domain.
 
-(* with glob matching on, an invalid host key crashes every lookup, whatever is asked *)
-Theorem C02_bad_host_glob_crashes_all : forall hostglob_ok bt host tls uri m total,
+(* the lookup code itself is unchanged: on a table that does contain an invalid host key (none that
+   NewTable returns any more) every glob-enabled lookup crashes, whatever is asked *)
+Theorem C02_bad_host_glob_crashes_all_unrepaired : forall hostglob_ok bt host tls uri m total,
   F_C02_bad_host_glob hostglob_ok bt tls = true ->
   lookup_full hostglob_ok bt host tls uri m false total = Panic.
 Proof. exact bad_host_glob_crashes_all. Qed.
-Print Assumptions C02_bad_host_glob_crashes_all.
+Print Assumptions C02_bad_host_glob_crashes_all_unrepaired.
 
 (* a pick crashes exactly on an empty ring of a route with >= 2 targets *)
 Theorem C02_pick_panic_iff : forall (br : broute) total,
@@ -228,6 +254,35 @@ Theorem C02_ring_fast_length : forall order fixed, perm_order order ->
   olen (ring_fast order fixed) = olen (ring_faithful order fixed).
 Proof. exact ring_fast_length. Qed.
 Print Assumptions C02_ring_fast_length.
+
+(* the custom backend decodes every poll on its own (since /repo 9bd16b3): an add without "src" at the
+   head of a poll is rejected and the table stays, whatever was polled before *)
+Theorem C02_custom_poll_missing_src_rejected : forall canon glob_ok rb cell (j : jdef) js,
+  j_cmd j = Some (Some CmdAdd) -> j_src j = None ->
+  custom_poll (custom_build canon glob_ok rb) cell (j :: js) = Some cell.
+Proof. exact custom_poll_missing_src_rejected. Qed.
+Print Assumptions C02_custom_poll_missing_src_rejected.
+
+(* F-C02-5 (fixed by 9bd16b3): the decoder that wrote into the previous poll's definitions installed
+   a definition without "src" under the previous src; the fresh decoder rejects it *)
+Theorem C02_custom_carry_over_refuted :
+  let poll1 := [jadd (bs "svc-a") (Some (bs "a.test/")) (bs "http://10.0.0.1:80/")] in
+  let poll2 := [jadd (bs "svc-s") None (bs "http://10.0.0.2:80/")] in
+  (match custom_poll_unrepaired cb_wit ([], []) poll1 with
+   | Some st => match custom_poll_unrepaired cb_wit st poll2 with
+                | Some (bt, _) => map (fun hr => (fst hr, map (fun br : broute => map t_svc (r_targets (fst br))) (snd hr))) bt
+                                  = [(bs "a.test", [[bs "svc-s"]])]
+                | None => False
+                end
+   | None => False
+   end)
+  /\ (match custom_poll cb_wit [] poll1 with
+      | Some bt1 => custom_poll cb_wit bt1 poll2 = Some bt1
+                    /\ cb_wit (map to_def (decode_fresh poll2)) = Err e_invalid_prefix
+      | None => False
+      end).
+Proof. exact custom_carry_over_refuted. Qed.
+Print Assumptions C02_custom_carry_over_refuted.
 
 Theorem C02_custom_errors :
   custom_build canon_wit glob_wit (ring_faithful stable_order) [None] = Err e_invalid_cmd
